@@ -228,7 +228,8 @@ pub fn panic_site(msg: &str) -> String {
         // keep "<crate dir>/src/file.rs:line" for dependencies and the math crate, "src/file.rs:line" for the crate under test
         if let Some(j) = loc.rfind("/src/") {
             let parent = loc[..j].rsplit('/').next().unwrap_or("");
-            let versioned = parent.chars().any(|c| c.is_ascii_digit()) || parent == "yuvxyb-math";
+            // "name-1.2.3" (a registry crate) or the math sub-crate
+            let versioned = parent == "yuvxyb-math" || parent.rsplit('-').next().is_some_and(|v| v.contains('.') && v.chars().all(|c| c.is_ascii_digit() || c == '.'));
             return if versioned { format!("{parent}{}", &loc[j..]) } else { loc[j + 1..].to_string() };
         }
         if let Some(j) = loc.find("src/") {
